@@ -111,3 +111,10 @@ func vIDString(name string) string
 
 func vEmptyStore() dsig.X509CertificateStore
 func vValidateCtxSince(k int, sp *SAMLServiceProvider) bool
+
+func vCertBytes(name string) []byte
+func vX509OK(der []byte) bool
+func vX509NotBefore(der []byte) int64
+func vX509NotAfter(der []byte) int64
+func vX509ParseCalls() int
+func vB64Dec(s string) string
